@@ -609,7 +609,7 @@ MA('C19', 'cylindrical derivative scaled twice', DETF,
 MA('C19', 'circular frame mirrored', DETF, 'CircularDetector.__init__',
    'self.__rotation_matrix = np.array([[cos, -sin], [sin, cos]])',
    'self.__rotation_matrix = np.array([[cos, sin], [sin, cos]])',
-   'CircularDetector.__init__')
+   'CircularDetector')
 
 # ---- C18 -------------------------------------------------------------------
 FTU = 'odl/trafos/util/ft_utils.py'
@@ -1045,3 +1045,23 @@ MA('C17', 'outer appends the partitions in reverse', DSPF,
    'DiscretizedSpaceElement.__array_ufunc__',
    'part = inp1.space.partition.append(inp2.space.partition)',
    'part = inp2.space.partition.append(inp1.space.partition)', 'add.outer')
+MA('C18', 'half-complex parity taken from the last grid axis',
+   'odl/trafos/util/ft_utils.py', 'reciprocal_grid',
+   'last_odd = shape[axes[-1]] % 2 == 1', 'last_odd = shape[-1] % 2 == 1',
+   'reciprocal_grid[2-d')
+M('C06', 'block derivative taken at the row component', 'odl/operator/pspace_ops.py',
+  """deriv_ops = [op.derivative(x[col]) for op, col in zip(self.ops.data,
+                                                              self.ops.col)]""",
+  """deriv_ops = [op.derivative(x[col]) for op, col in zip(self.ops.data,
+                                                              self.ops.row)]""",
+  'ProductSpaceOperator.derivative')
+M('C06', 'reduction derivative at the whole point', 'odl/operator/pspace_ops.py',
+  """return ReductionOperator(*[op.derivative(xi)
+                                   for op, xi in zip(self.operators, x)])""",
+  """return ReductionOperator(*[op.derivative(x)
+                                   for op, xi in zip(self.operators, x)])""",
+  'ReductionOperator.derivative')
+M('C19', 'circular detector frame mirrored (tuple unpacking)',
+  'odl/tomo/geometry/detector.py',
+  "        sin = self.__axis[0]\n        cos = -self.__axis[1]\n",
+  "        sin, cos = self.__axis\n", 'CircularDetector')
